@@ -85,7 +85,7 @@ def one(kind, rnd, srcroot, sid):
         m['needs_to_manifest'] = ' '.join(nm.group(1).split())[:1200] if nm else ''
         m['demo_exit_with_change'], m['demo_exit_without_change'] = res['with'], res['without']
         m['demo_last_line_with_change'] = res['with_tail']
-        m['origin'] = ('written by a fresh sub-agent (round %d) that was given only the JSON record of property %s, a note asking for defects away from the most obvious sites, and its own scratch worktree of /repo under /tmp (prompt: tools/agent_prompt.py defect + the round-10 paragraph quoted in DESIGN 11.11); nothing from /verif' % (rnd, sid[:3]))
+        m['origin'] = ('written by a fresh sub-agent (round %d) that was given only the JSON record of property %s, the extra paragraph of that round (quoted in DESIGN 11.11 for round 10 and 11.12 for round 11), and its own scratch worktree of /repo under /tmp (prompt: tools/agent_prompt.py defect); nothing from /verif' % (rnd, sid[:3]))
         m['what_i_ran'] = ['tools/intake_round.py defect: fresh detached worktree of /repo HEAD under /tmp/ev10/%s: git apply patch.diff; demo.py -> exit %s; git apply -R; demo.py -> exit %s; patch re-applied; pinned unit suite -> %s (failures: %s); worktree removed. Then tools/regress.py --only %s --write-meta (patched copy of /repo/kmip under /tmp/pt, all 20 quick checks with PV_REPO=<copy> --no-write)'
                            % (sid, res['with'], res['without'], res['suite'], ', '.join(x.split('::')[-1] for x in res['suite_failed']) or 'none', sid)]
     else:
